@@ -250,6 +250,80 @@ def ts_consts(text):
     return vals
 
 
+
+TS_DECODER_SIZES = {"Address": 32, "U8": 1, "I8": 1, "U16": 2, "I16": 2, "U32": 4, "I32": 4, "U64": 8, "I64": 8, "U128": 16}
+
+
+def ts_decoder_plan(text):
+    """The client's account decoder `getProofContextStateDecoder`, read as a plan by following the offsets through
+    its `read` function: [(decoder kind, size, offset read at)] for the header fields and the offset the context
+    bytes are sliced from. Returns (reads, context_offset); (None, None) when the function has a form this reader
+    does not follow (the theorem about it then no longer checks)."""
+    m = re.search(r"export function getProofContextStateDecoder\(\)[^{]*\{(.*?)\n\}", text, flags=re.S)
+    if not m:
+        return None, None
+    body = strip_comments(m.group(1))
+    m = re.search(r"const read\s*=\s*\(\s*(\w+)[^,)]*,\s*(\w+)\s*=\s*(\d+)\s*\)[^=]*=>\s*\{(.*?)\n\s*\};", body, flags=re.S)
+    if not m:
+        return None, None
+    buf, offname, offdef, rbody = m.group(1), m.group(2), int(m.group(3)), m.group(4)
+    env = {offname: offdef}
+    slices = {}
+
+    def ev(e):
+        e = e.strip()
+        toks = re.findall(r"[A-Za-z_]\w*|\d+|[+*()\-]", e)
+        if "".join(toks) != re.sub(r"\s+", "", e):
+            raise ValueError(e)
+        return int(eval("".join(str(env[t]) if re.match(r"[A-Za-z_]", t) else t for t in toks), {"__builtins__": {}}))
+
+    reads = []
+    try:
+        head = rbody.split("return", 1)[0]
+        ret = rbody.split("return", 1)[1] if "return" in rbody else ""
+        for stmt in head.split(";"):
+            st = " ".join(stmt.split())
+            if not st:
+                continue
+            mm = re.match(r"^(?:const|let) \[\s*(\w*)\s*(?:,\s*(\w+)\s*)?\] = get(\w+)Decoder\(\)\.read\(" + buf + r",\s*(.+)\)$", st)
+            if mm:
+                kind = mm.group(3)
+                off = ev(mm.group(4))
+                reads.append((kind, TS_DECODER_SIZES[kind], off))
+                if mm.group(2):
+                    env[mm.group(2)] = off + TS_DECODER_SIZES[kind]
+                continue
+            mm = re.match(r"^(?:const|let) (\w+) = get(\w+)Decoder\(\)\.(?:decode|read)\(" + buf + r"(?:,\s*(.+))?\)(?:\[0\])?$", st)
+            if mm:
+                kind = mm.group(2)
+                off = ev(mm.group(3)) if mm.group(3) else 0
+                reads.append((kind, TS_DECODER_SIZES[kind], off))
+                continue
+            mm = re.match(r"^(?:const|let) (\w+) = " + buf + r"\.(?:slice|subarray)\((.+)\)$", st)
+            if mm:
+                slices[mm.group(1)] = ev(mm.group(2))
+                continue
+            mm = re.match(r"^(?:const|let) (\w+) = ([\w\s+*()\-]+)$", st)
+            if mm:
+                env[mm.group(1)] = ev(mm.group(2))
+                continue
+            raise ValueError(st)
+        # which value is returned as `proofContext`
+        mm = re.search(r"proofContext\s*:\s*(\w+)\s*(?:\.(?:slice|subarray)\((.+?)\))?\s*[,}]", ret)
+        if mm:
+            if mm.group(2) is not None and mm.group(1) == buf:
+                ctx = ev(mm.group(2))
+            else:
+                ctx = slices[mm.group(1)]
+        elif re.search(r"[{,]\s*proofContext\s*[,}]", ret):
+            ctx = slices["proofContext"]
+        else:
+            raise ValueError("proofContext not returned")
+        return reads, ctx
+    except (ValueError, KeyError, SyntaxError, TypeError, ZeroDivisionError):
+        return None, None
+
+
 B58 = "123456789ABCDEFGHJKLMNPQRSTUVWXYZabcdefghijkmnopqrstuvwxyz"
 
 
@@ -315,6 +389,13 @@ def main():
     ts_close = read(os.path.join(JS, "generic/instructions/closeContextState.ts"))
     ts_instrs = ts_enum(ts_prog, "ZkElGamalProofInstruction")
     ts_ptypes = ts_enum(ts_acc, "ProofType")
+    meta_fields = []
+    off = 0
+    for f, t in structs.get("ProofContextStateMeta", {}).get("fields", []):
+        sz = size_of(t, structs, consts)
+        meta_fields.append((f, sz, off))
+        off += sz
+    ts_reads, ts_ctx_off = ts_decoder_plan(ts_acc)
     tsc = ts_consts(ts_cst)
     tsc.update({k: v for k, v in ts_consts(ts_close).items() if k == "CLOSE_CONTEXT_STATE_DISCRIMINATOR"})
     m = re.search(r"ZK_ELGAMAL_PROOF_PROGRAM_ADDRESS\s*=\s*'([1-9A-HJ-NP-Za-km-z]+)'", ts_prog)
@@ -349,6 +430,8 @@ def main():
         "ts_instructions": ts_instrs, "ts_proof_types": ts_ptypes, "ts_consts": tsc,
         "ts_address": ts_addr, "ts_address_bytes": ts_addr_bytes, "ts_actions": ts_actions,
         "ts_context_sizes": ts_ctx_sizes,
+        "ts_decoder_reads": ts_reads, "ts_decoder_context_offset": ts_ctx_off,
+        "meta_fields": [[f, sz, o] for f, sz, o in meta_fields],
     }
     os.makedirs(os.path.dirname(OUT_JSON), exist_ok=True)
     with open(OUT_JSON, "w") as f:
@@ -391,6 +474,14 @@ def main():
     L.append("def rustStateFields : List (List UInt8) := [" + ", ".join(lean_str(f) for f, _ in state_fields) + "]")
     L.append(f"def tsMetaSize : Nat := {tsc.get('CONTEXT_STATE_META_SIZE', 0)}")
     L.append(f"def tsCloseDiscriminator : Nat := {tsc.get('CLOSE_CONTEXT_STATE_DISCRIMINATOR', 999)}")
+    L.append("/-- the header the SDK encodes: (field, size, offset) of `ProofContextStateMeta` -/")
+    L.append("def rustMetaFields : List (List UInt8 × Nat × Nat) := [" + ", ".join(f"({lean_str(f)}, {sz}, {o})" for f, sz, o in meta_fields) + "]")
+    L.append("/-- the client's account decoder followed through its offsets: (decoder kind, size, offset it reads at) for the")
+    L.append("    header fields, and the offset from which the rest is handed on as the proof context (`none`: the")
+    L.append("    translator could not follow the function) -/")
+    L.append("def tsDecoderReads : Option (List (List UInt8 × Nat × Nat)) := " + ("none" if ts_reads is None else
+             "some [" + ", ".join(f"({lean_str(k)}, {sz}, {off})" for k, sz, off in ts_reads) + "]"))
+    L.append("def tsDecoderContextOffset : Option Nat := " + ("none" if ts_ctx_off is None else f"some {ts_ctx_off}"))
     L.append("/-- (proof type, context *account* size) as used by the TS action that sends that instruction -/")
     L.append("def tsContextAccountSizes : List (List UInt8 × Nat) := [")
     L.append(",\n".join(f"  ({lean_str(n)}, {v if v is not None else 0})" for n, v in ts_ctx_sizes))
